@@ -14,7 +14,11 @@ Alternatives whose agreement is proven elsewhere:
 Alternatives that agree only on solutions and up to discretisation error
 (st_Ricci_down4: Einstein-equation form vs contraction of Riemann;
 st_Weyl_down4: Riemann-based vs E/B-based; Weyl_Psi with Weyl_Psi4r given)
-are NOT theorems; they are compared numerically by the C01/C04/C10 oracles.
+are NOT theorems of THIS file; they are compared numerically by the C01/C04/C10 oracles.
+EXTENSION ROUND: the remaining algebraic guards are in Props/C01CoherenceA.lean; st_Ricci_down4 /
+st_Ricci_down3 are theorems under the explicit on-shell hypothesis in Props/C01CoherenceC.lean;
+`Weyl_Psi4r` is an input-only name whose test is constant along a history (Props/C01M.lean).
+Still not a theorem: st_Weyl_down4 Riemann-based vs E/B-based.
 -/
 import AurelVerif.Props.C09
 
